@@ -457,6 +457,29 @@ func c12RunWith(c *Case, withText bool) []any {
 			_, rme = runMode(schema, v.num, openapi3.MultiErrors())
 			r["re"] = reasonsOnly(projectTopErrors(re, withText))
 			r["rme"] = reasonsOnly(projectTopErrors(rme, withText))
+			// HISTORY on one error object (the detail switch is process-wide state): the error is rendered while details
+			// are enabled (a log line, say), then the switch is set, then the same error object is rendered again -- by
+			// itself and through its container.  What is projected below is the second rendering.
+			var he, hme error
+			_, he = runMode(schema, v.num)
+			_, hme = runMode(schema, v.num, openapi3.MultiErrors())
+			for _, e := range []error{he, hme} {
+				if e != nil {
+					guard(func() { _ = e.Error() })
+				}
+			}
+			openapi3.SchemaErrorDetailsDisabled = true
+			whole := func(e error) []any {
+				es := projectTopErrors(e, withText)
+				if e != nil {
+					var txt string
+					guard(func() { txt = e.Error() })
+					es = append(es, T{"k": "whole", "reasons": []any{}, "text": runeSeq(txt)})
+				}
+				return es
+			}
+			r["he"] = whole(he)
+			r["hme"] = whole(hme)
 			// the same value with typed Go slices ([]string, []map[string]any), as user code or a custom decoder may pass
 			if tv, changed := typedSlices(v.f64); changed {
 				_, te = runMode(schema, tv, reasonOnly)
